@@ -39,11 +39,22 @@ def wire_pipeline(chk, prop, gen_inv, variants_quick, variants_thorough, harness
         ("layered", dict(WIRE_CONST, MaxTok=6 if q else 7), variants_quick if q else variants_thorough),
         ("flat22", dict(FLAT_CONST, MaxTok=7 if q else 8), 2 if q else 6),
     ]
+    plans.append(("simulated", dict(WIRE_CONST, MaxTok=22, MaxDepth=4, MaxSet=4), 1))
     for label, const, variants in plans:
         cases = os.path.join(wd, "cases_%s.ndjson" % label)
-        r = mc(prop, "mc_" + label, "MC_Wire.tla", const, WIRE_INV + [gen_inv], constraint="Bound",
-               case_file=cases, coverage_actions=WIRE_ACTIONS if label == "layered" else None)
-        chk.add_mc(r, "MC_Wire/%s MaxTok=%d" % (label, const["MaxTok"]))
+        if label == "simulated":
+            # long well-formed streams (up to 23 tokens, nesting 4, sets of 4) by random walks of the writer
+            r = mc(prop, "sim_wire", "MC_Wire.tla", const, WIRE_INV + [gen_inv], constraint="Bound", case_file=cases,
+                   workers=1, simulate="num=%d" % (3000 if q else 30000), depth=26, timeout=1800)
+            chk.models.append({"model": "MC_Wire simulation (random walks, MaxTok=22, MaxDepth=4, MaxSet=4)",
+                               "behaviours": r["cases"], "wall_s": round(r["wall"], 1)})
+            if r["cases"] == 0:
+                continue
+        else:
+            r = mc(prop, "mc_" + label, "MC_Wire.tla", const, WIRE_INV + [gen_inv], constraint="Bound",
+                   case_file=cases, coverage_actions=WIRE_ACTIONS if label == "layered" else None)
+        if label != "simulated":
+            chk.add_mc(r, "MC_Wire/%s MaxTok=%d" % (label, const["MaxTok"]))
         if r["cases"] == 0:
             raise ToolError("TLC generated no cases (%s)" % label)
         out = os.path.join(wd, "run_" + label)
